@@ -114,6 +114,59 @@ pub fn check_text(text: &String, obs: &mut Obs) -> CheckResult {
     Ok(())
 }
 
+/// The file-reading entry point (`analyze_ip_reload`, what the SIGHUP arm calls) on files as bytes. A file that is
+/// valid UTF-8 must be judged exactly like its text. A file with undecodable bytes is "unreadable" to the unchanged
+/// code and refused as a whole; the statement could also be read as "apply the parsable lines" - both are accepted,
+/// anything else (a prefix, a subset) is not.
+pub fn check_file_bytes(lines: &Vec<Vec<u8>>, obs: &mut Obs) -> CheckResult {
+    let dir = crate::rt::verif_dir().join("harness").join("target");
+    let _ = std::fs::create_dir_all(&dir);
+    let path = dir.join(format!("c19-bytes-{}-{:?}.txt", std::process::id(), std::thread::current().id()));
+    let mut bytes: Vec<u8> = Vec::new();
+    for l in lines {
+        bytes.extend_from_slice(l);
+        bytes.push(b'\n');
+    }
+    std::fs::write(&path, &bytes).map_err(|e| crate::rt::Violation { sig: "harness".into(), msg: format!("write: {e}") })?;
+    let got = analyze_ip_reload(path.to_str().unwrap_or_default());
+    let _ = std::fs::remove_file(&path);
+    // per-line reading of the bytes: a line that is not valid UTF-8 is not an address
+    let all: Vec<IpAddr> = lines.iter().filter_map(|l| std::str::from_utf8(l).ok()).flat_map(|t| reference_ips(t)).collect();
+    match std::str::from_utf8(&bytes) {
+        Ok(text) => {
+            let exp = reference_ips(text);
+            match got {
+                IpReload::Refuse(_) => vensure!(exp.is_empty(), "reload-refused-with-valid-ip", "file (valid UTF-8) with {} parsable address(es) was refused", exp.len()),
+                IpReload::Apply { ips, .. } => vensure!(ips.as_slice() == exp.as_slice(), "reload-list-wrong", "file applied as {:?}, parsable lines in order are {:?}", ips.as_slice(), exp),
+            }
+        }
+        Err(_) => {
+            obs.nontrivial = !all.is_empty();
+            obs.class("file-with-undecodable-bytes");
+            match got {
+                IpReload::Refuse(_) => obs.class("undecodable-file-refused"),
+                IpReload::Apply { ips, .. } => {
+                    vensure!(ips.as_slice() == all.as_slice(), "reload-list-wrong", "a file with an undecodable line was applied as {:?}; it has to be refused as unreadable or applied with all its parsable lines {:?}", ips.as_slice(), all);
+                    obs.class("undecodable-file-applied-in-full");
+                }
+            }
+        }
+    }
+    Ok(())
+}
+
+fn file_bytes() -> impl Strategy<Value = Vec<Vec<u8>>> {
+    let line = prop_oneof![
+        6 => (0u8..12).prop_map(|k| format!("127.0.0.{}", 10 + k).into_bytes()),
+        1 => Just(b"::1".to_vec()),
+        1 => Just(b"garbage".to_vec()),
+        1 => Just(Vec::new()),
+        1 => Just(b" 127.0.0.30\r".to_vec()),
+        2 => prop_oneof![Just(vec![0xffu8, 0xfe, 0x41]), Just(vec![0xe9u8, b'c', b'o', b'm']), Just(vec![b'#', 0xc3]), vec(any::<u8>(), 1..6)],
+    ];
+    vec(line, 0..8)
+}
+
 fn check_file_entry(ctx: &Ctx) {
     let dir = crate::rt::verif_dir().join("harness").join("target");
     let _ = std::fs::create_dir_all(&dir);
@@ -446,7 +499,7 @@ pub fn run(ctx: &Ctx) -> &'static str {
     ctx.assume("a line is parsable iff, after splitting at '\\n', dropping one preceding '\\r' and trimming Unicode white space, std::net::IpAddr::from_str accepts it");
     ctx.assume("apply tier uses IPv4 loopback aliases 127.0.0.10..49 (every one binds here); relative order and initial phase of added links, first_invalid_line, and the routing choice when nothing was removed are not asserted");
     for (file, body) in ctx.replay_files() {
-        let done = ctx.replay_case::<String, _>("texts", &file, &body, check_text) || ctx.replay_case::<Case, _>("apply", &file, &body, check_apply);
+        let done = ctx.replay_case::<String, _>("texts", &file, &body, check_text) || ctx.replay_case::<Case, _>("apply", &file, &body, check_apply) || ctx.replay_case::<Vec<Vec<u8>>, _>("file-bytes", &file, &body, check_file_bytes);
         if !done {
             eprintln!("replay {}: unknown part", file.display());
         }
@@ -461,6 +514,13 @@ pub fn run(ctx: &Ctx) -> &'static str {
         ctx.tier.pick(150_000, 1_500_000),
         file_text,
         |_| check_text,
+    );
+    ctx.explore(
+        "file-bytes",
+        "ips files as bytes through the file-reading entry point analyze_ip_reload (addresses, garbage, blanks, CR, lines of undecodable bytes): valid UTF-8 is judged like its text; a file with an undecodable line is either refused as unreadable or applied with all its parsable lines in order; non-trivial = an undecodable line and at least one parsable address",
+        ctx.tier.pick(6_000, 100_000),
+        file_bytes,
+        |_| check_file_bytes,
     );
     let mo = ctx.tier.pick(30, 60);
     ctx.explore(
